@@ -940,7 +940,11 @@ class _State(object):
             return
         fr = h(fresh[0])
         self.results.append((name, got == "unhashable"))
-        if got != fr:
+        if got != fr and "unhashable" not in (got, fr):
+            # (a live PointJacobi denoting infinity and the INFINITY
+            # singleton, or a Jacobi and a legacy point, are objects of
+            # different classes: one of them being unhashable is no
+            # contradiction)
             self.fail("fresh", name, "hash() of a live object is %r, of a "
                       "freshly built object denoting the same value %r "
                       "(equal objects must hash equal)" % (got, fr))
